@@ -220,35 +220,47 @@ func (p *uPacketPacker) PackCoalescedPacket(onlyAck bool, maxSize protocol.ByteC
 			// zeros behind the Initial packet. Packets coalesced into this datagram have to
 			// follow the Initial packet directly (a receiver stops at the first zero byte,
 			// and the padded Initial plus the other packets can exceed the packet buffer):
-			// take the padding off and put it back behind the last packet.
+			// take the padding off; the last packet of the datagram is padded instead (with
+			// PADDING frames: a short header packet extends to the end of the datagram, so
+			// nothing may follow it).
 			if n := int(cont.length); n < len(buffer.Data) && (handshakePayload.length > 0 || zeroRTTPayload.length > 0 || oneRTTPayload.length > 0) {
 				datagramPadTo = len(buffer.Data)
 				buffer.Data = buffer.Data[:n]
 			}
 		}
 	}
+	// padding for the last packet, of unpadded length last, when `behind` more bytes follow the current end of the buffer
+	lastPadding := func(behind, last protocol.ByteCount) protocol.ByteCount {
+		if n := protocol.ByteCount(datagramPadTo) - protocol.ByteCount(len(buffer.Data)) - behind - last; datagramPadTo > 0 && n > 0 {
+			return n
+		}
+		return 0
+	}
 	if handshakePayload.length > 0 {
-		cont, err := p.appendLongHeaderPacket(buffer, handshakeHdr, handshakePayload, 0, protocol.EncryptionHandshake, handshakeSealer, v)
+		var padding protocol.ByteCount
+		if zeroRTTPayload.length == 0 && oneRTTPayload.length == 0 {
+			padding = lastPadding(0, p.longHeaderPacketLength(handshakeHdr, handshakePayload, v)+protocol.ByteCount(handshakeSealer.Overhead()))
+		}
+		cont, err := p.appendLongHeaderPacket(buffer, handshakeHdr, handshakePayload, padding, protocol.EncryptionHandshake, handshakeSealer, v)
 		if err != nil {
 			return nil, err
 		}
 		packet.longHdrPackets = append(packet.longHdrPackets, cont)
 	}
 	if zeroRTTPayload.length > 0 {
-		longHdrPacket, err := p.appendLongHeaderPacket(buffer, zeroRTTHdr, zeroRTTPayload, 0, protocol.Encryption0RTT, zeroRTTSealer, v)
+		padding := lastPadding(0, p.longHeaderPacketLength(zeroRTTHdr, zeroRTTPayload, v)+protocol.ByteCount(zeroRTTSealer.Overhead()))
+		longHdrPacket, err := p.appendLongHeaderPacket(buffer, zeroRTTHdr, zeroRTTPayload, padding, protocol.Encryption0RTT, zeroRTTSealer, v)
 		if err != nil {
 			return nil, err
 		}
 		packet.longHdrPackets = append(packet.longHdrPackets, longHdrPacket)
 	} else if oneRTTPayload.length > 0 {
-		shp, err := p.appendShortHeaderPacket(buffer, connID, oneRTTPacketNumber, oneRTTPacketNumberLen, kp, oneRTTPayload, 0, maxSize, oneRTTSealer, false, v)
+		padding := lastPadding(0, p.shortHeaderPacketLength(connID, oneRTTPacketNumberLen, oneRTTPayload)+protocol.ByteCount(oneRTTSealer.Overhead()))
+		shp, err := p.appendShortHeaderPacket(buffer, connID, oneRTTPacketNumber, oneRTTPacketNumberLen, kp, oneRTTPayload, padding, max(maxSize, protocol.ByteCount(datagramPadTo)), oneRTTSealer, false, v)
 		if err != nil {
 			return nil, err
 		}
 		packet.shortHdrPacket = &shp
-	}
-	if len(buffer.Data) < datagramPadTo {
-		buffer.Data = append(buffer.Data, make([]byte, datagramPadTo-len(buffer.Data))...)
 	}
 	return packet, nil
 }
